@@ -5,6 +5,6 @@ D=/tmp/mut.$$
 mkdir -p $D
 (cd /repo && git ls-files src | tar -cf - -T - | tar -xf - -C $D) || exit 3
 (cd $D && git init -q . && git apply --whitespace=nowarn "$P") || { echo "patch does not apply"; rm -rf $D; exit 3; }
-VERIF_EVIDENCE_DIR=$D/evidence VERIF_REPO_SRC=$D/src /verif/bin/vcheck $ID --tier $TIER; rc=$?
+VERIF_WORK=$D/work VERIF_EVIDENCE_DIR=$D/evidence VERIF_REPO_SRC=$D/src /verif/bin/vcheck $ID --tier $TIER; rc=$?
 rm -rf $D
 exit $rc
